@@ -431,6 +431,9 @@ func (nc *Coordinator) checkAndSendResponseToModules(response *protocol.Consumer
 		// New incident - assign an ID and start time
 		cgroup.ID = uuid.NewRandom().String()
 		cgroup.Start = time.Now()
+		// Every incident is announced afresh: send-once and send-interval apply within an incident, so forget
+		// when the previous incident was last notified (it is only cleared otherwise when a close is sent)
+		cgroup.LastNotify = make(map[string]time.Time)
 	}
 
 	for _, genericModule := range nc.modules {
